@@ -333,6 +333,60 @@ func pacedBody(name string, writers int) func() {
 	}
 }
 
+// ---- harness B4: a backpressure subscriber that looks the value up (Get) between two receives - it keeps
+// receiving, it is never the one that stops - while a writer writes twice in a row. Nothing may be dropped and no
+// write may run into the send timeout: a subscriber reading the resource it subscribes to is ordinary use.
+func readingSubscriberBody(name string, coll bool, writes int) func() {
+	return func() {
+		ctx, cancel := context.WithCancel(context.Background())
+		defer cancel()
+		var received []string
+		var werr []string
+		var final string
+		if coll {
+			col := resource.NewCollection(resource.WithInitialRecord("a", msg(0)))
+			ch := col.Pull(ctx, resource.WithBackpressure(true), resource.WithUpdatesOnly(true))
+			go func() {
+				for c := range ch {
+					col.Get("a")
+					received = append(received, show(c.NewValue))
+				}
+			}()
+			for k := 1; k <= writes; k++ {
+				if _, err := col.Update("a", msg(k)); err != nil {
+					werr = append(werr, fmt.Sprintf("Update(%d): %v", k, err))
+				}
+			}
+			verifrt.WaitIdle()
+			m, _ := col.Get("a")
+			final = show(m)
+		} else {
+			val := resource.NewValue(resource.WithInitialValue(msg(0)))
+			ch := val.Pull(ctx, resource.WithBackpressure(true), resource.WithUpdatesOnly(true))
+			go func() {
+				for c := range ch {
+					val.Get()
+					received = append(received, show(c.Value))
+				}
+			}()
+			for k := 1; k <= writes; k++ {
+				if _, err := val.Set(msg(k)); err != nil {
+					werr = append(werr, fmt.Sprintf("Set(%d): %v", k, err))
+				}
+			}
+			verifrt.WaitIdle()
+			final = show(val.Get())
+		}
+		if len(werr) > 0 || verifrt.FiredTimers() > 0 {
+			verifrt.Logf("FAIL reading-subscriber-write-error %s ## the subscriber never stopped receiving, yet: %v (timers fired: %d); received %v", name, werr, verifrt.FiredTimers(), received)
+		}
+		if len(received) != writes || received[len(received)-1] != final {
+			verifrt.Logf("FAIL reading-subscriber-dropped %s ## %d writes, received %v, store holds %s", name, writes, received, final)
+		}
+		verifrt.Logf("OUT received=%v errs=%d", received, len(werr))
+	}
+}
+
 // ---- harness D: the excess components alone
 func componentBody(name string, seq []ev, merge bool, closeAfter bool) func() {
 	return func() {
@@ -512,6 +566,12 @@ func main() {
 				continue
 			}
 			h.Sched(name, q, -1, valueBody(name, n, true, late), hx.StdOracle)
+		}
+	}
+	for _, coll := range []bool{false, true} {
+		for n := 2; n <= 3; n++ {
+			name := fmt.Sprintf("%s-backpressure/subscriber-reads-between-receives/n=%d", map[bool]string{false: "value", true: "coll"}[coll], n)
+			h.Sched(name, -1, -1, readingSubscriberBody(name, coll, n), hx.StdOracle)
 		}
 	}
 	for w := 2; w <= 3; w++ {
